@@ -1,19 +1,65 @@
 /-
   Model of the DMR that pydap's server writes (responses/dmr.py `dmr()` dispatcher) for a dataset of
   groups and numeric variables, as the element tree of that text (ElementTree is trusted for text → tree).
-  Served attributes are outside the model (the renderer writes Python type names for them); `<Map>` output is
-  unclosed XML and is not modelled either.
+  Since fix 02bf132 the attributes of a variable are written with DAP4 type names (`_attribute_type`), one
+  `<Value>` per value, and its Maps as `<Map name=…/>` children: both are modelled for variables.  Attributes of
+  groups and of the dataset are written by the same helper but are not part of this model.
 -/
 import PydapModel.DmrSpec
 namespace Pydap.Dmr
 
+/-- one value of a served attribute, by what `_attribute_type` looks at (`np.asarray(value).dtype`): an integer
+    (Python `int` = signed 8 bytes; numpy integers of 2^lg bytes), a float (`float` / `float64`, or `float32`)
+    with its `str()`, or text (`str`, `bytes`, `bool`, anything else: `str(value)`) -/
+inductive SrvVal where
+  | int (unsigned : Bool) (lg : Fin 4) (i : Int)
+  | float (double : Bool) (text : Str)
+  | text (s : Str)
+deriving Repr
+
+/-- `prefix + str(8 * itemsize)` -/
+def intTag : Bool → Fin 4 → Str
+  | false, 0 => "Int8".toList | false, 1 => "Int16".toList | false, 2 => "Int32".toList | false, 3 => "Int64".toList
+  | true, 0 => "UInt8".toList | true, 1 => "UInt16".toList | true, 2 => "UInt32".toList | true, 3 => "UInt64".toList
+
+/-- `_attribute_type(value)` -/
+def SrvVal.tag : SrvVal → Str
+  | .int u lg _ => intTag u lg
+  | .float d _ => if d then "Float64".toList else "Float32".toList
+  | .text _ => "String".toList
+
+/-- `str(value)` -/
+def SrvVal.str : SrvVal → Str
+  | .int _ _ i => intText i
+  | .float _ t => t
+  | .text s => s
+
+/-- an attribute of a served variable: a scalar is one value, a list or tuple its elements -/
+structure SrvAttr where
+  name : Str
+  values : List SrvVal
+deriving Repr
+
+/-- the `type` written: that of the first value (`String` for an empty list) -/
+def SrvAttr.tag (a : SrvAttr) : Str :=
+  match a.values with
+  | [] => "String".toList
+  | v :: _ => v.tag
+
+/-- `_attribute(key, value, level)`: `<Attribute name type>` with one `<Value>text</Value>` per value -/
+def srvAttrNode (a : SrvAttr) : XNode :=
+  .mk "Attribute".toList [("name".toList, a.name), ("type".toList, a.tag)] none
+    (a.values.map fun v => .mk "Value".toList [] (some v.str) [])
+
 /-- a `BaseType`: numpy kind and `str(dtype)`, `var.dims` (the fully qualified names it was created with),
-    each paired with the extent of `var.data` along that axis -/
+    each paired with the extent of `var.data` along that axis, its attributes (without `dims`, `Maps`) and `Maps` -/
 structure SrvVar where
   name : Str
   kind : Char
   dtypeName : Str
   dims : List (Str × Int)
+  attrs : List SrvAttr := []
+  maps : List Str := []
 deriving Repr
 
 /-- `children()` of a container in dict order; a group carries its `dimensions` attribute -/
@@ -26,10 +72,12 @@ deriving Repr
 def srvDimension (d : Str × Nat) : XNode :=
   .mk "Dimension".toList [("name".toList, d.1), ("size".toList, natDigits d.2)] none []
 
-/-- `_basetype`: `<Tag name=…>` + one `<Dim name=…/>` per entry of `var.dims` -/
+/-- `_basetype`: `<Tag name=…>` + one `<Dim name=…/>` per entry of `var.dims`, the attributes, one `<Map name=…/>`
+    per entry of `Maps` -/
 def srvVarNode (v : SrvVar) : XNode :=
   .mk (dmrTypeTag v.kind v.dtypeName) [("name".toList, v.name)] none
-    (v.dims.map fun d => .mk "Dim".toList [("name".toList, d.1)] none [])
+    ((v.dims.map fun d => .mk "Dim".toList [("name".toList, d.1)] none [])
+      ++ (v.attrs.map srvAttrNode ++ v.maps.map renderMap))
 
 /-- `_grouptype`: the group's dimensions first, then its children -/
 def srvNodes : SrvTree → List XNode
@@ -47,8 +95,22 @@ def renderServer (name : Str) (dims : List (Str × Nat)) (kids : SrvTree) : XNod
 
 /-! ### the same dataset as an abstract spec (what the served dataset *is*) -/
 
+/-- what a served value *is*: the integer, the float (its text), the string -/
+def SrvVal.sval : SrvVal → SVal
+  | .int _ _ i => .int (intText i) i
+  | .float _ t => .float t
+  | .text s => .str s
+
+def srvAttrSpec (a : SrvAttr) : SAttr := ⟨a.name, a.tag, none, a.values.map fun v => (true, v.sval)⟩
+
+/-- the values of one attribute are of one kind (all integers, all floats or all text): what a list attribute of
+    a dataset is expected to be — the type written is that of the first value -/
+def SrvAttr.homog (a : SrvAttr) : Prop :=
+  (∀ v ∈ a.values, ∃ u lg i, v = .int u lg i) ∨ (∀ v ∈ a.values, ∃ d t, v = .float d t)
+    ∨ (∀ v ∈ a.values, ∃ s, v = .text s)
+
 def srvVarSpec (v : SrvVar) : SVar :=
-  ⟨dmrTypeTag v.kind v.dtypeName, v.name, v.dims.map fun d => .named d.1 d.2, [], []⟩
+  ⟨dmrTypeTag v.kind v.dtypeName, v.name, v.dims.map fun d => .named d.1 d.2, v.attrs.map srvAttrSpec, v.maps⟩
 
 def dimsSpec : List (Str × Nat) → Spec → Spec
   | [], rest => rest
@@ -59,16 +121,20 @@ def srvSpec : SrvTree → Spec
   | .var v rest => .var (srvVarSpec v) (srvSpec rest)
   | .group n dims kids rest => .group n (dimsSpec dims (srvSpec kids)) (srvSpec rest)
 
-/-- the served variables in `children()` order, depth first, with their group paths -/
+/-- the served variables in `children()` order, depth first, with their group paths (as the client stores them:
+    `_quote` of the served group names — a served name is already a stored name, quoting it again changes nothing) -/
 def srvVars (path : List Str) : SrvTree → List (List Str × SrvVar)
   | .nil => []
   | .var v rest => (path, v) :: srvVars path rest
-  | .group n _ kids rest => srvVars (path ++ [n]) kids ++ srvVars path rest
+  | .group n _ kids rest => srvVars (path ++ [quoteName n]) kids ++ srvVars path rest
 
 /-- what the client must get back for a served variable: key/name/path, the parser's dtype string `dt`,
-    the dimension names it was created with, the shape of its data -/
+    the dimension names it was created with, the shape of its data, its Maps, and every attribute under its name
+    with its values — integers as integers, floats as `float(str(value))`, text as text; one value comes back as a
+    scalar, several as the list, none as `None` (a one-element list and a scalar are the same DMR) -/
 def srvExpect (dt : Str) (path : List Str) (v : SrvVar) : VarRec :=
   { key := keyOf path v.name, name := v.name, path := if path = [] then none else some (pathStr path),
-    dtype := dt, dims := v.dims.map (·.1), shape := v.dims.map (·.2), maps := [], attrs := [] }
+    dtype := dt, dims := v.dims.map (·.1), shape := v.dims.map (·.2), maps := v.maps.map some,
+    attrs := v.attrs.map fun a => (a.name, (srvAttrSpec a).expected) }
 
 end Pydap.Dmr
